@@ -71,6 +71,18 @@ pub fn step(ctx: &Ctx, w: &World, ev: &mut Ev) {
                     return;
                 }
             };
+            // the oracle TWAP that enters the premium is a time-weighted average of submitted prices: with the
+            // repository's own feed it lies between the lowest and the highest price in effect for a positive stretch
+            // of the vAMM's interval (the harness's own record of the accepted submissions)
+            if w.cfg.oracle == OracleKind::Real {
+                if let Some(subs) = ctx.model.feed.get(v) {
+                    if let Some((lo, hi, _)) = super::c18::feed_bounds(subs, ctx.post.time, a.twap_interval) {
+                        if ut < lo || ut > hi {
+                            ev.violation("oracle_twap_bounds", if ut > hi { "above" } else { "below" }, json!({"oracle_twap": ut.to_string(), "min": lo.to_string(), "max": hi.to_string(), "interval": a.twap_interval, "now": ctx.post.time, "submissions": subs.iter().rev().take(5).map(|x| json!([x.0, x.1.to_string()])).collect::<Vec<_>>()}));
+                        }
+                    }
+                }
+            }
             let premium = match smul_div(tw as i128 - ut as i128, a.funding_period as i128, 86400) {
                 Some(x) => x,
                 None => return,
